@@ -19,8 +19,8 @@ namespace TrRouting
     std::optional<std::reference_wrapper<const Connection>> tripExitConnection;
     int  connectionDepartureTime          {-1};
     int  connectionArrivalTime            {-1};
-    short connectionMinWaitingTimeSeconds {-1};
-    short journeyConnectionMinWaitingTimeSeconds {-1};
+    int   connectionMinWaitingTimeSeconds {-1};
+    int   journeyConnectionMinWaitingTimeSeconds {-1};
     //long long  footpathsRangeStart        {-1};
     //long long  footpathsRangeEnd          {-1};
     int  footpathIndex                    {-1};
@@ -228,8 +228,8 @@ namespace TrRouting
     std::optional<std::reference_wrapper<const Connection>> tripExitConnection;
     int  connectionDepartureTime          {-1};
     int  connectionArrivalTime            {-1};
-    short connectionMinWaitingTimeSeconds {-1};
-    short journeyConnectionMinWaitingTimeSeconds {-1};
+    int   connectionMinWaitingTimeSeconds {-1};
+    int   journeyConnectionMinWaitingTimeSeconds {-1};
     //long long  footpathsRangeStart        {-1};
     //long long  footpathsRangeEnd          {-1};
     int  footpathIndex                    {-1};
